@@ -326,3 +326,27 @@ def check_manager_data_forwarding(ctx, F, rule="E-EVENT.forward"):
                "does not reach the apply cache / ZBDD cache leaves stale entries"
                % (adt_name, ev, F.where(fid), ev, len(same), other or "nothing else", nfields))
     return n
+
+
+def check_gc_sweep_order(ctx, F, crate, rule="E-EVENT"):
+    """Manager::gc sweeps the inner-node levels before the terminals: a terminal referenced only by dead inner nodes
+    loses its last reference during the level sweep, so a terminal sweep that runs first (or in between) leaves
+    unreferenced terminals behind after the collection."""
+    tag = crate.split("_")[-1]
+    rule_ = "%s.%s" % (rule, tag)
+    fid = manager_fn(F, crate, "gc")
+    if not ctx.anchor(rule_, crate + " Manager::gc", fid is not None and fid in F.mir):
+        return 0
+    B = cfg.Body(F.mir[fid])
+    levels = M("level.gc", call=r"LevelViewSet::<.*>::gc$").blocks(B)
+    terms = M("terminal gc", call=r"TerminalManager::gc$|TerminalManager.*::gc$").blocks(B)
+    terms = [t for t in terms if t not in levels]
+    ok = bool(levels) and bool(terms) and not any(B.can_reach(t, l) and t != l for t in terms for l in levels) \
+        and all(any(B.can_reach(l, t) for t in terms) for l in levels)
+    ctx.ob(rule_, rule_ + ":gc:terminals-last", ok,
+           "%s::Manager::gc (%s): %s" % (crate, F.where(fid),
+                                         "every level sweep precedes the terminal sweep" if ok else
+                                         "the terminal sweep must come after all level sweeps (found %d level / %d terminal "
+                                         "sweep sites; a terminal sweep that can be followed by a level sweep keeps terminals "
+                                         "alive that only dead inner nodes reference)" % (len(levels), len(terms))))
+    return 1
